@@ -283,9 +283,9 @@ fn permute(v: &[usize]) -> Vec<Vec<usize>> {
 pub fn run(ctx: &Ctx) -> Report {
     let mut rep = Report::new(
         "exploration",
-        "grammar-G sets of 2..5 modules with independently drawn tagging defaults and EXTENSIBILITY IMPLIED flags, acyclic and cyclic import graphs (forward references across modules), imported types and values (values as DEFAULTs), module-qualified references; each module is one source. For every module m: its `pub mod` block (doc-free token-normalised items incl. use lines) in the full-set compilation is compared with its block when compiled with exactly its import closure (every order when <= 3 modules) and with the closure plus random other modules in random order. State invariant per generated module (hook H4): the backend's tagging and extensibility defaults equal the module header's while generating. Use lines: exactly one per IMPORTS ... FROM clause, symbol set = imported symbols (values in upper snake case) plus, as documented, the governing type of an imported value; module-qualified references must name the defining module. Non-trivial = full-set compilation Ok and projected; distinct by model hash.",
+        "grammar-G sets of 2..5 modules with independently drawn tagging defaults and EXTENSIBILITY IMPLIED flags, acyclic and cyclic import graphs (forward references across modules), imported types and values (values as DEFAULTs), module-qualified references; each module is one source. For every module m: its `pub mod` block (doc-free token-normalised items incl. use lines) in the full-set compilation is compared with its block when compiled with exactly its import closure (every order when <= 3 modules) and with the closure plus random other modules in random order. State invariant per generated module (hook H4): the backend's tagging and extensibility defaults equal the module header's while generating. Use lines: exactly one per IMPORTS ... FROM clause, symbol set = imported symbols (values in upper snake case) plus, as documented, the governing type of an imported value; module-qualified references must name the defining module. Values of a sibling module in DEFAULTs, constraint bounds and value assignments, imported or module-qualified (exhaustive over 4 governing types x 3 positions x 2 spellings x 2 source orders): every mention of the sibling's constant must be in scope (use line or `super::<module>::` path) and a bound must be the referenced value. Non-trivial = full-set compilation Ok and projected; distinct by model hash.",
     );
-    rep.must_observe = vec!["copied_member_tags_compared".into(), "module_blocks_compared".into(), "hook_events[ModuleEnv]".into(), "module_env_overwrites_that_mattered".into(), "use_symbol_sets_compared".into()];
+    rep.must_observe = vec!["copied_member_tags_compared".into(), "module_blocks_compared".into(), "hook_events[ModuleEnv]".into(), "module_env_overwrites_that_mattered".into(), "use_symbol_sets_compared".into(), "value_reference_sites_checked".into()];
     rep.assumptions = vec!["hook H4 reports the backend state faithfully".into(), "import closure computed on the model (IMPORTS + module-qualified references)".into()];
     if let Some(path) = &ctx.replay {
         let doc: serde_json::Value = serde_json::from_str(&std::fs::read_to_string(path).expect("replay")).expect("json");
@@ -310,7 +310,114 @@ pub fn run(ctx: &Ctx) -> Report {
     cross_module_cycles(seed, ctx.pick(120u64, 2000), &mut rep);
     copied_bodies(&mut rep);
     multi_clause_imports(&mut rep);
+    qualified_values(&mut rep);
     rep
+}
+
+/// Values of another module used in DEFAULTs, constraint bounds and value assignments, written plain (imported) or
+/// module-qualified (`Ma.va`, not imported). Exhaustive over position x spelling x governing type kind. Oracle (name
+/// resolution, the part of C12 that says "module-qualified references resolve to that module"): a constant of the sibling
+/// module that is mentioned in the using module's items must be in scope there - imported by a use line (by name or glob)
+/// or spelled `super::<module>::NAME` - and the constraint bound must be the referenced value.
+pub fn qualified_value_sources(kind: usize, position: usize, qualified: bool) -> Vec<String> {
+    let (ty, val, name) = [("INTEGER", "5", "va"), ("Ea", "green", "ea"), ("Ta", "7", "ta"), ("BOOLEAN", "TRUE", "ba")][kind];
+    let a = format!("Ma DEFINITIONS AUTOMATIC TAGS ::= BEGIN\nEXPORTS ALL;\nEa ::= ENUMERATED {{ red, green }}\nTa ::= INTEGER (0..100)\n{name} {ty} ::= {val}\nEND\n");
+    let r = if qualified { format!("Ma.{name}") } else { name.to_string() };
+    let mut imports: Vec<&str> = vec![];
+    if !qualified {
+        imports.push(name);
+    }
+    if ty == "Ea" || ty == "Ta" {
+        imports.push(ty);
+    }
+    let imp = if imports.is_empty() { String::new() } else { format!("IMPORTS {} FROM Ma;\n", imports.join(", ")) };
+    let body = match position {
+        0 => format!("Tb ::= SEQUENCE {{ fa {ty} DEFAULT {r}, fb NULL }}"),
+        1 => format!("vb {ty} ::= {r}"),
+        _ => format!("Tb ::= INTEGER (0..{r})"),
+    };
+    vec![a, format!("Mb DEFINITIONS AUTOMATIC TAGS ::= BEGIN\n{imp}{body}\nEND\n")]
+}
+
+fn qualified_values(rep: &mut Report) {
+    for kind in 0..4 {
+        for position in 0..3 {
+            if position == 2 && kind != 0 && kind != 2 {
+                continue;
+            }
+            for qualified in [false, true] {
+                for a_first in [true, false] {
+                    let mut srcs = qualified_value_sources(kind, position, qualified);
+                    if !a_first {
+                        srcs.reverse();
+                    }
+                    let run = comp::rasn(&srcs, &Cfg::default_cfg());
+                    rep.evaluations += 1;
+                    let comp::Outcome::Ok { generated, warnings } = &run.out else {
+                        rep.count("qualified_value_cases[not Ok]", 1);
+                        continue;
+                    };
+                    if !warnings.is_empty() {
+                        rep.count("qualified_value_cases[warnings]", 1);
+                        continue;
+                    }
+                    let Ok(mods) = crate::proj::project(generated) else { continue };
+                    let (Some(ma), Some(mb)) = (mods.iter().find(|m| m.name == "ma"), mods.iter().find(|m| m.name == "mb")) else { continue };
+                    rep.count("qualified_value_cases_judged", 1);
+                    rep.nontrivial.insert(hash_str(&srcs.join("|")));
+                    let cname = ["VA", "EA", "TA", "BA"][kind];
+                    if ma.find_const(cname).is_none() {
+                        continue;
+                    }
+                    let pos = ["default", "value-assignment", "constraint-bound"][position];
+                    let origin = format!("qualified-values(kind={kind},position={position},qualified={qualified},a_first={a_first})");
+                    let imported = mb.uses().iter().any(|u| u.starts_with("super::ma::") && (u.ends_with("::*") || u["super::ma::".len()..].trim_start_matches('{').trim_end_matches('}').split(',').any(|x| x.trim() == cname)));
+                    let mut mentioned = false;
+                    for it in &mb.items {
+                        if matches!(it.kind, Kind::Use(_)) {
+                            continue;
+                        }
+                        // whole-identifier occurrences of the constant in the (white-space-free) item text
+                        let text: String = it.text.chars().filter(|c| !c.is_whitespace()).collect();
+                        let isid = |c: char| c.is_ascii_alphanumeric() || c == '_';
+                        let mut from = 0;
+                        while let Some(off) = text[from..].find(cname) {
+                            let i = from + off;
+                            from = i + cname.len();
+                            if text[..i].chars().next_back().is_some_and(isid) || text[from..].chars().next().is_some_and(isid) {
+                                continue;
+                            }
+                            mentioned = true;
+                            rep.count("value_reference_sites_checked", 1);
+                            let pathed = text[..i].ends_with("super::ma::");
+                            if !pathed && !imported {
+                                rep.violations.push(Violation {
+                                    sig: format!("c12|value-reference|constant-of-sibling-module-not-in-scope|qualified={qualified},position={pos}"),
+                                    what: format!("module Mb mentions {cname} of module Ma in `{}` without importing it or spelling `super::ma::{cname}` [{origin}]", one_line(&it.text, 160)),
+                                    replay: json!({"origin": origin, "sources": srcs}),
+                                });
+                            }
+                        }
+                    }
+                    if position == 2 {
+                        // the bound itself must be the referenced value
+                        rep.count("value_reference_sites_checked", 1);
+                        let want = if kind == 0 { "0..=5" } else { "0..=7" };
+                        let got = mb.find("Tb").and_then(|t| t.attrs.range("value")).map(|r| r.0);
+                        if got.as_deref() != Some(want) {
+                            rep.violations.push(Violation {
+                                sig: format!("c12|value-reference|bound-not-the-referenced-value|qualified={qualified}"),
+                                what: format!("`INTEGER (0..{})` emitted as {got:?}, expected {want} [{origin}]", if qualified { "Ma.v" } else { "v" }),
+                                replay: json!({"origin": origin, "sources": srcs}),
+                            });
+                        }
+                    } else if !mentioned {
+                        rep.count("qualified_value_cases[value inlined]", 1);
+                    }
+                }
+            }
+        }
+    }
 }
 
 /// An IMPORTS clause with several `FROM` parts: each part becomes a use line of its own symbols; that one part has to be
